@@ -411,6 +411,33 @@ def run(ctx):
         r.undecided('unregister: list surgery', loc=uf.mod.src, msg='no store into the registry list found')
     r.require_min(2)
 
+    # ---------------- R14l registry state written at insertion is maintained at removal
+    r = ctx.rule('R14l', 'every global that register points at an instance is also updated by unregister',
+                 'a remembered instance pointer (tail, cache, "most recent") that removal does not maintain dangles after destroy: the next insertion links into freed memory')
+    from .. import effects as _eff14
+    E14 = _eff14.get(P)
+    rf_, uf_ = P.fn('liberasurecode_backend_instance_register'), P.fn('liberasurecode_backend_instance_unregister')
+    def instance_globals(fn_):
+        out = {}
+        for ins, glob, kind in E14.global_accesses(fn_):
+            if kind != 'store' or ins.op != 'store':
+                continue
+            # the stored value is an instance pointer (the parameter or something read from the registry)
+            if ins.ty and 'ec_backend*' in ins.ty.replace(' ', '') and 'rwlock' not in glob:
+                out.setdefault(glob, ins)
+        return out
+    gr, gu = instance_globals(rf_), instance_globals(uf_)
+    if not gr:
+        r.undecided('register: registry stores', loc=rf_.mod.src, msg='register stores no instance pointer into a global')
+    for glob, ins in sorted(gr.items()):
+        inst = f'{glob}: written with an instance pointer by register'
+        if glob in gu:
+            r.ok(inst + ' and by unregister', func=rf_.name, loc=ins.loc)
+        else:
+            r.fail(inst, func=rf_.name, sig=f'{glob} set by register, never updated by unregister', loc=ins.loc,
+                   msg=f'register stores an instance pointer in {glob} but unregister never updates it: after the instance it names is destroyed the pointer dangles')
+    r.require_min(1)
+
     # ---------------- R14f
     r = ctx.rule('R14f', 'GF table references: +1 on every successful RS init path, 0 on every failing one, -1 in exit; free only at count 0',
                  'an unbalanced count frees tables a live instance uses, or keeps 1 MiB forever')
